@@ -539,6 +539,11 @@ def check_case(res, drv, spec, mk_circ, det, noise_sim, tag, ref_clean=None):
                 break
     if rho is not None and mix is not None and not np.any(np.isnan(rho)) and n <= 4:
         ref = sum(p * du.stab_density(t) for p, t in mix)
+        # which theorem of Properties/C06.lean speaks about this input (coverage record only): `dm_equals_mixture` (no measurement),
+        # `dm_equals_mixture_with_uniform_measurements` (the model's nonUniform flag off), or neither (flag on: domain of finding F2)
+        has_meas = any(KIND_OF_CLASS.get(type(o).__name__, "") in ("measz", "mcr", "ccnot", "ccz") for o in impl["stab"]["seq"])
+        res.branch(["clause-c:" + ("flag-on(F2-domain)" if reps["stab"].get("nonunif") == "1"
+                                   else ("uniform-measurements" if has_meas else "measurement-free"))])
         if not du.mat_close(ref, rho):
             flags_nonunif = reps["stab"].get("nonunif") == "1"
             if m_loss and abs(float(np.trace(rho).real) - float(np.trace(ref).real)) > 1e-9:
